@@ -72,6 +72,15 @@ func ruleC02R1(r *Run) {
 		if rn := recvTypeName(fn); strings.Contains(rn, "Storage") {
 			continue // delegating store implementations
 		}
+		restore := false
+		for _, rm := range findCalls(fn, false, "/iscp.sentStorage.Remove") {
+			if at, isRepl := replacesEntry(p, rm); isRepl && at == st {
+				restore = true
+			}
+		}
+		if restore {
+			continue // puts back (a form of) an entry it has just taken out: not the storing of a new chunk
+		}
 		n++
 		name := fnName(fn)
 		sends := sendStarters(p, fn)
@@ -133,6 +142,9 @@ func ruleC02R2(r *Run) {
 		fn := rm.Parent()
 		if rn := recvTypeName(fn); strings.Contains(rn, "Storage") {
 			continue
+		}
+		if _, isRepl := replacesEntry(p, rm); isRepl {
+			continue // Remove + Store of what was removed under the same key: the entry is replaced, not taken out
 		}
 		n++
 		name := fnName(fn)
@@ -799,4 +811,42 @@ func ruleC02R11(r *Run) {
 			r.Check(fnName(run)+" clears only on resume", okEdge, posOf(p, c), fnName(run), "the Clear must lie on the true edge of the isResume parameter")
 		}
 	}
+}
+
+// replacesEntry: the Remove at rm and a Store in the same function form a replacement of the entry — the Store is keyed
+// by the same sequence-number value, what it stores derives from what the Remove returned, and it is reached whenever
+// the Remove succeeded (it lies on the nil-error edge and no return is reachable from that edge without it). The chunk
+// never leaves the storage as far as other goroutines holding the same lock can tell.
+func replacesEntry(p *Prog, rm ssa.Instruction) (ssa.Instruction, bool) {
+	fn := rm.Parent()
+	rmc, ok := rm.(*ssa.Call)
+	if !ok {
+		return nil, false
+	}
+	rargs := callArgs(&rmc.Call)
+	var found ssa.Instruction
+	for _, st := range findCalls(fn, false, "/iscp.sentStorage.Store") {
+		sc, isC := st.(*ssa.Call)
+		if !isC {
+			continue
+		}
+		sargs := callArgs(&sc.Call)
+		if len(sargs) < 5 || len(rargs) < 4 {
+			continue
+		}
+		if canonVal(sargs[3]) != canonVal(rargs[3]) {
+			continue
+		}
+		from := false
+		for _, l := range p.Leaves(sargs[4], provOpts{}) {
+			if l == "call:/iscp.sentStorage.Remove" {
+				from = true
+			}
+		}
+		if !from || !guardedByNilErr(rmc, st) {
+			continue
+		}
+		found = st
+	}
+	return found, found != nil
 }
